@@ -69,7 +69,7 @@ class Check(object):
 
     # -- recording -------------------------------------------------------
     def ob(self, rule, instance, verdict, node=None, file='', func='', detail='', key=None, line=None):
-        ln = line if line is not None else (getattr(node, 'lineno', 0) if node is not None else 0)
+        ln = line if line is not None else (getattr(node, 'src_lineno', getattr(node, 'lineno', 0)) if node is not None else 0)
         o = Ob(rule, instance, verdict, file, ln, func, detail, key)
         self.obs.append(o)
         return o
